@@ -1,5 +1,5 @@
 (* C06 — elapsed-unit differences are the exact difference of the instants truncated toward zero. *)
-From Astro Require Import Base DateModel TimeModel ApiModel InstantSpec TimeProofs.
+From Astro Require Import Base DateModel TimeModel ApiModel InstantSpec TimeProofs SinceTime.
 
 Theorem C06_hours : forall a b, Inv_dt a -> Inv_dt b -> dt_hours_since a b = Z.quot (instant a - instant b) NANOS_PER_HOUR.
 Proof. exact c06_hours. Qed.
@@ -24,6 +24,35 @@ Theorem C06_inverts_add : forall u v n v', Inv_dt v -> 0 <= n -> dt_add u v n = 
   Z.quot (instant v' - instant v) (unit_nanos u) = n.
 Proof. exact c06_inverts_add. Qed.
 
+(* the same for the Time type (the difference of the two stored times of day) and the Date type *)
+Theorem C06_time_hours : forall a b, Inv_tm a -> Inv_tm b -> time_hours_since a b = Z.quot (tm_nanos a - tm_nanos b) NANOS_PER_HOUR.
+Proof. exact time_hours_since_is. Qed.
+Theorem C06_time_minutes : forall a b, Inv_tm a -> Inv_tm b -> time_minutes_since a b = Z.quot (tm_nanos a - tm_nanos b) NANOS_PER_MINUTE.
+Proof. exact time_minutes_since_is. Qed.
+Theorem C06_time_seconds : forall a b, Inv_tm a -> Inv_tm b -> time_seconds_since a b = Z.quot (tm_nanos a - tm_nanos b) NANOS_PER_SEC.
+Proof. exact time_seconds_since_is. Qed.
+Theorem C06_time_millis : forall a b, Inv_tm a -> Inv_tm b -> time_millis_since a b = Z.quot (tm_nanos a - tm_nanos b) 1000000.
+Proof. exact time_millis_since_is. Qed.
+Theorem C06_time_micros : forall a b, Inv_tm a -> Inv_tm b -> time_micros_since a b = Z.quot (tm_nanos a - tm_nanos b) 1000.
+Proof. exact time_micros_since_is. Qed.
+Theorem C06_time_nanos : forall a b, Inv_tm a -> Inv_tm b -> time_nanos_since a b = tm_nanos a - tm_nanos b.
+Proof. exact time_nanos_since_is. Qed.
+Theorem C06_time_duration_between : forall a b, time_duration_between a b = Z.abs (tm_nanos a - tm_nanos b).
+Proof. exact time_duration_between_is. Qed.
+Theorem C06_date_days : forall a b, date_days_since a b = a - b.
+Proof. exact date_days_since_is. Qed.
+Theorem C06_date_duration_between : forall a b, date_duration_between a b = Z.abs (a - b) * SECS_PER_DAY.
+Proof. exact date_duration_between_is. Qed.
+
+Print Assumptions C06_time_hours.
+Print Assumptions C06_time_minutes.
+Print Assumptions C06_time_seconds.
+Print Assumptions C06_time_millis.
+Print Assumptions C06_time_micros.
+Print Assumptions C06_time_nanos.
+Print Assumptions C06_time_duration_between.
+Print Assumptions C06_date_days.
+Print Assumptions C06_date_duration_between.
 Print Assumptions C06_hours.
 Print Assumptions C06_minutes.
 Print Assumptions C06_seconds.
